@@ -151,17 +151,18 @@ Section Oracles.
   (** an IBTP transaction whose proof is not verified gets a FAILED receipt and changes nothing
       but the sender's nonce and the fee; nothing is announced (repaired event harvesting) *)
   Theorem unverified_frame c e idx s st ib pd t s' rc cnt :
-    d_stale_changer c = false -> d_fee_after_body (x_fees c) = false ->
+    d_stale_changer c = false -> d_prev_from_memory c = false -> d_revert_drops_tombstone c = false ->
+    d_fee_after_body (x_fees c) = false ->
     verify st ib pd <> VOk ->
     apply_tx c e idx s (checked H digest rule_validate recover st ib pd t) = (s', rc, cnt) ->
     r_ok rc = false /\
     frame_ok e s s' (checked H digest rule_validate recover st ib pd t) /\
     (d_failed_events c = false -> cnt = []).
   Proof.
-    intros Hs Hf Hv Ha.
+    intros Hs Hpm Htb Hf Hv Ha.
     assert (Hinv : tx_invalid (checked H digest rule_validate recover st ib pd t) = true).
     { unfold checked. simpl. destruct (verify st ib pd); simpl; try apply orb_true_r. contradiction. }
-    destruct (invalid_tx_frame c Hs e idx s _ s' rc cnt Hf Hinv Ha) as [Hok Hfr].
+    destruct (invalid_tx_frame c Hs Hpm Htb e idx s _ s' rc cnt Hf Hinv Ha) as [Hok Hfr].
     split; [exact Hok|]. split; [exact Hfr|].
     intro Hfe. eapply failed_not_delivered; eassumption.
   Qed.
